@@ -186,6 +186,7 @@ def gated(ck, label, cases, tables, random_n, shards, retry=0):
             stats["runs"] += 1
             stats["conforming"] += bool(c["conf"])
             stats["blocked_on_mutex"] += r.get("blocked", 0)
+            stats["table_created_in_mid_run"] += any(m["e"] == "step" and m["l"] == "create" for m in lines)
             nontriv = interleaved(lines)
             ck.cov["distinct_nontrivial"] += nontriv
             stats["interleaved"] += nontriv
@@ -226,7 +227,7 @@ def gated(ck, label, cases, tables, random_n, shards, retry=0):
 
 def values(ck, rounds, n):
     binary = get_binary(ck)
-    out = core.harness(binary, "values", dict(seed=ck.seed, dir=dbdir(), rounds=rounds, n=n), timeout=1200)
+    out = core.harness(binary, "values", dict(seed=ck.seed, dir=dbdir(), rounds=rounds, n=n, both_late=rounds > 1), timeout=1200)
     stats = collections.Counter()
     with LOCK:
         for r in out["results"]:
@@ -242,13 +243,14 @@ def values(ck, rounds, n):
             else:
                 symptom = r["verdict"]["symptom"]
             stats[r["class"] + ":" + symptom] += 1
+            stats["tables_created_late"] += bool(r.get("late_tables"))
             if symptom == "ok":
                 if len(ck.cov["samples"]) < 5 and r["shape"] == "wide":
                     ck.sample({"round_trip": {"shape": r["shape"], "batch": r["batch"], "flush_pattern": r["pattern"], "entries": r["entries"], "first": r["sample"]}})
                 continue
-            key = {"mode": "sequential", "shape": r["shape"], "class": r["class"], "symptom": symptom}
-            ck.report(key, "sequential round trip (one goroutine, shape %s, value class %s, batch %s, flush pattern %s, %d entries): %s %s %s; first entry %s" % (
-                r["shape"], r["class"], r["batch"], r["pattern"], r["entries"], symptom, r.get("panic_msg", ""), r["verdict"], r.get("sample")), {"key": key, "result": r})
+            key = {"mode": "sequential", "shape": r["shape"], "class": r["class"], "symptom": symptom, "tables": "created_late" if r.get("late_tables") else "up_front"}
+            ck.report(key, "sequential round trip (one goroutine, shape %s, value class %s, batch %s, flush pattern %s, tables %s, %d entries): %s %s %s; first entry %s" % (
+                r["shape"], r["class"], r["batch"], r["pattern"], key["tables"], r["entries"], symptom, r.get("panic_msg", ""), r["verdict"], r.get("sample")), {"key": key, "result": r})
         ck.cov["values"] = dict(stats)
     ck.note("values: %s" % dict(stats))
 
@@ -283,6 +285,7 @@ def free(ck, label, runs, race=False, single_every=0, budget=0, max_per=60, tlc_
             nontriv = r["inserters"] >= 2 or r["flushes"] >= 2
             ck.cov["distinct_nontrivial"] += nontriv
             stats["overlapping" if r["overlap"] else "not_overlapping"] += 1
+            stats["tables_created_in_mid_run"] += bool(r.get("late_tables"))
             if r["crashed"]:
                 symptom = panic_class(r["panic_msg"])
             elif go_ok:
@@ -296,7 +299,8 @@ def free(ck, label, runs, race=False, single_every=0, budget=0, max_per=60, tlc_
                 if len(ck.cov["samples"]) < 6 and r["inserters"] >= 2:
                     ck.sample({label: {k: r[k] for k in ("inserters", "flusher", "batch", "procs", "entries", "flushes", "overlap", "sample")}})
                 continue
-            key = {"mode": "free", "goroutines": "single" if r["inserters"] == 1 and not r["flusher"] else "several", "overlap": r["overlap"], "symptom": symptom}
+            key = {"mode": "free", "goroutines": "single" if r["inserters"] == 1 and not r["flusher"] else "several", "overlap": r["overlap"], "symptom": symptom,
+                   "tables": "created_in_mid_run" if r.get("late_tables") else "up_front"}
             ck.report(key, "%s: %d inserter goroutine(s)%s, batch size %d, GOMAXPROCS %d, %d entries, %d flushes begun, calls overlapped a flush: %s -> %s %s %s" % (
                 label, r["inserters"], " + flusher" if r["flusher"] else "", r["batch"], r["procs"], r["entries"], r["flushes"], r["overlap"], symptom,
                 r.get("panic_msg", ""), {k: v for k, v in r["verdict"].items() if v}), {"key": key, "result": r, "seed": ck.seed, "label": label})
@@ -333,6 +337,7 @@ def run(ck):
         "free runs use the connection pool as is, busy timeout shortened to 150 ms (only consulted if two goroutines write at once, i.e. after a regression)",
         "NaN is not generated: SQLite stores NaN as NULL, no SQLite-backed recorder can return it; +-Inf, -0, subnormals are generated",
         "table and field names are not SQL keywords; entries carry unique IDs so that 'exactly once' is decidable per entry",
+        "tables are created by CreateTable before the goroutines start or, for the later ones, by one inserter in mid-run; nobody inserts into a table before its CreateTable has returned, and no table is created twice",
         "the visit of the 'location' map entry in Flush's table loop (a length read) is not a model step; the controller lets it pass unlogged",
     ]
     get_binary(ck)
@@ -346,7 +351,7 @@ def run(ck):
         jobs.append(pool.submit(free, ck, "free-race", 150, race=True, budget=150, single_every=12))
     # 1. the model: the lock scope the code has satisfies the statement; the scope it had before the repair is the negative control
     # 2. B3: as soon as a model run is through, its schedules go to the real recorder; seeded random gate schedules start at once
-    nb, ng = (50, 130) if q else (200, 800)
+    nb, ng = (50, 100) if q else (200, 800)
     cfgs = ([("Recorder_q.cfg", 3), ("Recorder_q2.cfg", 2), ("Recorder_q3.cfg", 3)] if q else
             [("Recorder_t.cfg", 6), ("Recorder_t2.cfg", 3), ("Recorder_t3.cfg", 3), ("Recorder_t4.cfg", 5)])
     pred = collections.Counter()
@@ -357,14 +362,14 @@ def run(ck):
             raise core.Broken("Recorder.tla (%s) violates %s %s — the model of the recorder does not satisfy the statement: it has drifted from "
                               "the code, or the code's lock scope no longer guarantees it; inspect" % (cfg, r.violated, r.error))
         cs = r.tagged["CASE"]
-        tabs = sorted({s["t"] for c in cs for s in c["sched"] if s["l"] == "ins"})
+        tabs = sorted({s["t"] for c in cs for s in c["sched"] if s["l"] in ("ins", "create")} | {t for c in cs for t in c["init"]})
         with LOCK:
             pred.update(c["outcome"] for c in cs)
             rng = random.Random(ck.seed * 1000 + k)     # per model run: the sample does not depend on which run finishes first
             chosen = pick(rng, [c for c in cs if c["outcome"] != "ok"], nb) + pick(rng, [c for c in cs if c["outcome"] == "ok"], ng)
             ck.cov.setdefault("schedules_replayed_of_model_schedules", {})[cfg] = [len(chosen), len(cs)]
         gated(ck, "tlc-schedules" + (str(k + 1) if k else ""),
-              [dict(name="tlc-%d" % i, batch=c["batch"], sched=c["sched"], outcome=c["outcome"]) for i, c in enumerate(chosen)],
+              [dict(name="tlc-%d" % i, batch=c["batch"], sched=c["sched"], outcome=c["outcome"], init=sorted(c["init"])) for i, c in enumerate(chosen)],
               tabs, 0, 4 if q else 6, retry=0 if len(tabs) == 1 else 12)
 
     def negative_control():
@@ -376,7 +381,7 @@ def run(ck):
 
     jobs.append(pool.submit(negative_control))
     jobs += [pool.submit(model_and_replay, k, cfg, w) for k, (cfg, w) in enumerate(cfgs)]
-    jobs.append(pool.submit(gated, ck, "random-schedules", [], ["t1", "t2"], 100 if q else 800, 2 if q else 6))
+    jobs.append(pool.submit(gated, ck, "random-schedules", [], ["t1", "t2"], 80 if q else 800, 2 if q else 6))
     errs = []
     for j in jobs:
         try:
